@@ -175,8 +175,9 @@ class Ctx:
             return 1 + sum(1 for r in self.rows[model].values() if r[1] == 3 and r[0] == row[0] and r[2] != row[2])
         return 1
 
-    def probe_stream(self, m, c, v, model=None, alt=0):
-        """The stream of a one-event probe for code (m,c,v) (bytes)."""
+    def probe_stream(self, m, c, v, model=None, alt=0, state=None):
+        """The stream of a one-event probe for code (m,c,v) (bytes).  `state`: "p" / "c" = the thread
+        is paused / cooling when the probe arrives."""
         s = self.stream()
         if model is None:
             model = self.by_char.get(m)
@@ -189,6 +190,9 @@ class Ctx:
         for (mcv, p, j) in pre:
             clk += 10
             s.ev(clk, mcv, p, j)
+        if state in ("p", "c") and start:
+            clk += 10
+            s.ev(clk, "OH" + state)
         s.ev(PROBE_CLOCK, bytes([m, c, v]), pay, jumbo)
         return s
 
